@@ -1,6 +1,7 @@
 package props
 
 import (
+	"go/token"
 	"fmt"
 	"go/ast"
 	"go/constant"
@@ -69,9 +70,11 @@ func c15Tolerance(c *Ctx) {
 		}
 	}
 	ast.Inspect(f.Body, func(m ast.Node) bool {
-		if be, ok := m.(*ast.BinaryExpr); ok && be.Op.String() == "==" && strings.HasSuffix(core.ExprStr(be.X), ".minLatency.dialer") {
-			if id, ok := be.Y.(*ast.Ident); ok && info.ObjectOf(id) == dialerParam {
-				isBestKey = core.ExprStr(be)
+		if be, ok := m.(*ast.BinaryExpr); ok {
+			if _, op, y, ok := core.Oriented(be, func(e ast.Expr) bool { return strings.HasSuffix(core.ExprStr(e), ".minLatency.dialer") }); ok && op == token.EQL {
+				if id, ok := y.(*ast.Ident); ok && info.ObjectOf(id) == dialerParam {
+					isBestKey = core.ExprStr(be)
+				}
 			}
 		}
 		return true
@@ -181,10 +184,12 @@ func c15Tolerance(c *Ctx) {
 	}
 	// candidate latency: the local compared with .minLatency.sortingLatency by <=
 	ast.Inspect(cm.Body, func(m ast.Node) bool {
-		if be, ok := m.(*ast.BinaryExpr); ok && be.Op.String() == "<=" && strings.HasSuffix(core.ExprStr(be.Y), ".minLatency.sortingLatency") {
-			if id, ok := be.X.(*ast.Ident); ok && candObj == nil {
-				candObj = cm.Info().ObjectOf(id)
-				candVar = id.Name
+		if be, ok := m.(*ast.BinaryExpr); ok {
+			if _, op, other, ok := core.Oriented(be, func(e ast.Expr) bool { return strings.HasSuffix(core.ExprStr(e), ".minLatency.sortingLatency") }); ok && op == token.GEQ { // current >= candidate
+				if id, ok := other.(*ast.Ident); ok && candObj == nil {
+					candObj = cm.Info().ObjectOf(id)
+					candVar = id.Name
+				}
 			}
 		}
 		if be, ok := m.(*ast.BinaryExpr); ok && be.Op.String() == "!=" && core.ExprStr(be.Y) == "nil" {
